@@ -174,9 +174,15 @@ def stepThread (s : Sys) (i : Nat) : Option Sys :=
     some { s with threads := setT s.threads i { t with pc := .close reval (t.fault = .readErr), fetching := false } }
   | .close reval readFailed =>
     if reval then
-      -- xattr on the tmp file, rename over the entry
-      some { s with tmp := false, file := .published t.ver (!readFailed) true,
-                    threads := setT s.threads i { t with pc := .notify (if readFailed then 1 else 0) } }
+      if s.tmp then
+        -- xattr on the tmp file, rename over the entry
+        some { s with tmp := false, file := .published t.ver (!readFailed) true,
+                      threads := setT s.threads i { t with pc := .notify (if readFailed then 1 else 0) } }
+      else
+        -- the shared `<name>.tmp` was already renamed away by another revalidating writer (two
+        -- writers at once: only after a stale release): xattr.Set fails with ENOENT ⇒ Delete ⇒ Close
+        -- returns the error; notify is NOT reached, the client has only the headers
+        some { s with threads := setT s.threads i { t with pc := .notify 3 } }
     else if t.fileLost then
       -- xattr.Set fails with ENOENT ⇒ Delete ⇒ Close returns the error ⇒ errCleanup; notify is NOT reached
       some { s with threads := setT s.threads i { t with pc := .notify 3, ownsFile := false } }
